@@ -31,6 +31,7 @@ let rec tnode () =
     TBlock (has, name, a, u, times nb tnode)
   | "C" -> let u = names () in let a = names () in let nb = num () in TCall (u, a, times nb tnode)
   | "N" -> let nb = num () in TNamespace (times nb tnode)
+  | "f" -> let u = names () in let d = names () in let inside = (num () = 1) in TFor (u, d, inside)
   | t -> failwith ("tnode " ^ t)
 let show_names l = String.concat " " (List.map (fun x -> string_of_int (int_of_n x)) l)
 
